@@ -120,6 +120,16 @@ package executors
 //@   call executeTasks#0: assert arg_tasks == ctBatch
 //@   modifies wg(pe.waitGroup), ctExecutes, ctExecArg, ctRemoveAlls, ctBatch
 
+// Wait: flushes what is buffered and then, on EVERY path, waits for the wait group (batches taken by the background flusher
+// or by a concurrent Flush are covered only by that wait - whether this caller's own Flush ran something is irrelevant)
+//@ func (pe *PeriodicalExecutor) Wait
+//@   property C11
+//@   flag nolock
+//@   requires pe.container != nil
+//@   call Wait#0: assert ctRemoveAlls == old(ctRemoveAlls) + 1
+//@   ensures wgWaits(pe.waitGroup) == old(wgWaits(pe.waitGroup)) + 1 && ctRemoveAlls == old(ctRemoveAlls) + 1
+//@   ensures wg(pe.waitGroup) == old(wg(pe.waitGroup))
+
 // the flusher goroutine: a batch handed over through `commander` is registered with the wait group BEFORE the producer is
 // released (confirmChan), so that a Wait that starts after Add returned covers it; every received batch goes to
 // executeTasks exactly once
